@@ -52,7 +52,12 @@ def run(ctx):
         ctx.anchor_lost("R-C06-1", "exactly one Graph::reverse call in closeness_centrality (found %d)" % len(rcalls))
         return
     # locals of reference type assigned more than once = the switching variable
-    cands = [l["i"] for l in root.locals if l["name"] and l["ty"].startswith("&graph::Graph<") and l["i"] > root.arg_count and len(root.assigns_to(l["i"])) >= 2]
+    # (named or not: `let g = match .. { Some(r) => r, None => graph }` assigns a temporary in the arms) -- among them,
+    # the one the kernels' graph argument derives from
+    kslice = set()
+    for (b_, t_) in kcalls:
+        kslice |= flows.slice(b_.path, flows.of(b_)._op_reads(t_.args[0]), up=True, down=False, data_only=True, roots=(root.path,))
+    cands = [l["i"] for l in root.locals if l["ty"].startswith("&graph::Graph<") and l["i"] > root.arg_count and len(root.assigns_to(l["i"])) >= 2 and (root.path, ("L", l["i"])) in kslice]
     if len(cands) != 1:
         ctx.anchor_lost("R-C06-1", "one re-assigned `&Graph` variable in closeness_centrality (found %d)" % len(cands))
         return
@@ -65,7 +70,7 @@ def run(ctx):
             rev_defs.append((bb, d))
         else:
             init_defs.append((bb, d))
-    ctx.require(len(rev_defs) == 1 and len(init_defs) == 1, "R-C06-1", "defs", "`%s` has one initial definition (the graph) and one reversed-graph definition" % root.local_name(var), "unexpected definitions of `%s`: %d reversed, %d other" % (root.local_name(var), len(rev_defs), len(init_defs)), loc_str(root.span))
+    ctx.require(len(rev_defs) == 1 and len(init_defs) == 1, "R-C06-1", "defs", "`%s` has one initial definition (the graph) and one reversed-graph definition" % (root.local_name(var) or "_%d" % var), "unexpected definitions of `%s`: %d reversed, %d other" % ((root.local_name(var) or "_%d" % var), len(rev_defs), len(init_defs)), loc_str(root.span))
     if len(rev_defs) != 1 or len(init_defs) != 1:
         return
     rbb, rd = rev_defs[0]
@@ -106,6 +111,10 @@ def run(ctx):
     # a use reached through the redefinition block is fine (killed); compute precisely: uses reachable while the init def is live
     live = set()
     st = [ibb]
+    if ibb not in root.reach_avoiding_edges([(sw_bb, false_succ)]):
+        # the un-reversed definition is itself made only on the specs.directed == false side
+        # (`let g = match &reversed { Some(r) => r, None => graph }`): it cannot be live on a directed path
+        st = []
     while st:
         x = st.pop()
         if x in live:
